@@ -68,3 +68,19 @@ for atag, acode in ALIASES:
             tier='off', replay='mpz_xor',      # enabled per unit below once it has been decided on the unchanged tree
             selftest=[('__gmpz_xor', r'res_ptr\[res_size\] = cy;\s*res_size\+\+;', 'res_ptr[res_size] = cy;'),
                       ('__gmpz_xor', r'res_alloc = \(\(op1_size\) > \(op2_size\) \? \(op1_size\) : \(op2_size\)\) \+ 1;', 'res_alloc = ((op1_size) > (op2_size) ? (op1_size) : (op2_size));')] if not atag and stag == 'pn_short' else []))
+
+# ------------------------------------------------------------------ bounded native stand-ins (labelled bounded, never counted as proof)
+SPACE = 'operands of 0..3 limbs over the limb alphabet {0, 1, 5, 2^63, 2^64-5, 2^64-1} (top limb non-zero), both signs (431 values)'
+UNITS.append(dict(
+    name='mpz_logic_enum', kind='native', props=['C10', 'C05'], source='mpz/and.c', more_sources=['mpz/ior.c', 'mpz/xor.c'], driver='replay/smallops_enum.c', args=['logic'],
+    bounded='BOUNDED (not proof): complete enumeration of mpz_and / mpz_ior / mpz_xor over every ordered pair of ' + SPACE + ', alias modes distinct / res == op1 / res == op2 / op1 == op2, '
+            'destination of one limb or of six: 1.67 million calls against the two\'s-complement limb function tc(z)[k] = z >= 0 ? Z[k] : ~(|z| - 1)[k]',
+    desc='[C10][C05] every limb of the infinite two\'s-complement string of the result is the bitwise function of the operands\' strings, the result is normalised, input-only operands are unchanged - over the whole enumerated space',
+    assumptions=['bounded stand-in: the proof units of mpz_xor (mixed signs) ran out of memory in CBMC\'s propositional reduction (14 GB cap) and are kept at tier off; mpz_and / mpz_ior have no proof unit'],
+    timeout=600, selftest=[]))
+UNITS.append(dict(
+    name='mpz_bits_enum', kind='native', props=['C10'], source='mpz/setbit.c', more_sources=['mpz/clrbit.c', 'mpz/combit.c'], driver='replay/smallops_enum.c', args=['bits'],
+    bounded='BOUNDED (not proof): complete enumeration of mpz_setbit / mpz_clrbit / mpz_combit over ' + SPACE + ' x 19 bit indices around the limb boundaries 0..260 x minimal or generous allocation: 49134 calls',
+    desc='[C10] the two\'s-complement string of the result differs from the operand\'s in exactly the addressed bit (set / cleared / flipped); the result is normalised - over the whole enumerated space',
+    assumptions=['bounded stand-in for the partitions of mpz_combit that have no proof unit (d < 0 with the bit at or above the lowest non-zero limb); mpz_setbit and mpz_clrbit are proved by their own units'],
+    timeout=300, selftest=[]))
